@@ -51,6 +51,9 @@ class VFSZip(VFS_Real):
         if hasattr(self, "zipfd"):
             self.zipfd.close()
 
+    # Key of the entry count that save_cache() stores after the index itself.
+    CACHE_COMPLETE_KEY = "complete"
+
     def get_cache_filename(self) -> str:
         (dir_, file) = os.path.split(self.zipfilename)
         return os.path.join(dir_, ".cache.pygopherd.zip3." + file)
@@ -62,6 +65,9 @@ class VFSZip(VFS_Real):
             with shelve.open(cache_fspath, "n") as db:
                 for (key, value) in self.dircache.items():
                     db[key] = value
+                # Written last: a store that lost entries has lost this one
+                # as well, or no longer matches it.
+                db[self.CACHE_COMPLETE_KEY] = len(self.dircache)
         except OSError:
             return False
         else:
@@ -90,7 +96,10 @@ class VFSZip(VFS_Real):
             # Read the whole index now: a damaged store may open fine and
             # only fail at the first look-up, outside of this guard.
             with shelve.open(cache_fspath, "r") as db:
-                self.dircache = dict(db)
+                dircache = dict(db)
+            if dircache.pop(self.CACHE_COMPLETE_KEY, None) != len(dircache):
+                raise ValueError("incomplete cache")
+            self.dircache = dircache
         except Exception:
             self.populate_cache()
             self.save_cache()
